@@ -292,24 +292,16 @@ pub fn child(case: &Case) -> Report {
                             let _g = quiesce.write().unwrap();
                             let expected = model.lock().unwrap().live.remove(&id);
                             let racers = 2 + k as usize;
-                            let go = std::sync::atomic::AtomicBool::new(false);
-                            let ready = std::sync::atomic::AtomicUsize::new(0);
+                            let start = Barrier::new(racers);
                             let got: Vec<Option<(u64, String)>> = std::thread::scope(|sc| {
                                 let hs: Vec<_> = (0..racers)
                                     .map(|_| {
                                         sc.spawn(|| {
-                                            ready.fetch_add(1, std::sync::atomic::Ordering::SeqCst);
-                                            while !go.load(std::sync::atomic::Ordering::Acquire) {
-                                                std::hint::spin_loop();
-                                            }
+                                            start.wait();
                                             take_error(id)
                                         })
                                     })
                                     .collect();
-                                while ready.load(std::sync::atomic::Ordering::SeqCst) < racers {
-                                    std::thread::yield_now();
-                                }
-                                go.store(true, std::sync::atomic::Ordering::Release);
                                 hs.into_iter().map(|h| h.join().unwrap_or(None)).collect()
                             });
                             let winners: Vec<&(u64, String)> = got.iter().flatten().collect();
